@@ -5,7 +5,7 @@ from harness import xmlgen as X
 from harness import fakesession as F
 
 ID = 'C10'
-COQ_ROOTS = ['Props/C10.v']
+COQ_ROOTS = ['Props/C10.v', 'GenProps/Reply_consts.v', 'GenProps/XmlHelpers_consts.v']
 RULE = ('Generated <rpc-reply> documents (random binding of the base namespace, extra attributes incl. two attributes with one '
         'local name, nested namespaced content, Unicode text, CDATA, comments, PIs, mixed content, decoy and duplicate <data> '
         'children, <ok/>, 0-3 <rpc-error>) serialised by the harness and delivered through a fake Session to real '
